@@ -193,6 +193,21 @@ def c17_reuse(ctx):
     ctx.check_eq('launch_velocity_after_in_place_changes', calc.muzzle_velocity, want * 3.2808399, rel=1e-9, abs=1e-5, info={'state': 'calibrated + enabled'})
     mv2 = ctx.real('mv2', 1e-3, 1e5)
     ammo.mv = p.Velocity.MPS(mv2)
+    # the stated velocity is re-stated while the calibrated sensitivity stays in force: the line is anchored at the NEW stated velocity
+    # and its slope is modifier x NEW stated velocity / 15 C (nothing remembered from the calibration but the modifier)
+    Tq = ctx.real('T_query_c', -200, 1000)
+    want2 = mv2 * (1 + ammo.temp_modifier * (Tq - t0) / 15)
+    ctx.check_eq('launch_velocity_after_in_place_changes', ammo.get_velocity_for_temp(p.Temperature.Celsius(Tq)) >> p.Velocity.MPS, want2,
+                 rel=1e-9, abs=1e-6, info={'state': 'mv reassigned, still enabled: get_velocity_for_temp'})
+    calc._init_trajectory(shot)
+    want3 = mv2 * (1 + ammo.temp_modifier * (air - t0) / 15)
+    ctx.check_eq('launch_velocity_after_in_place_changes', calc.muzzle_velocity, want3 * 3.2808399, rel=1e-9, abs=1e-5, info={'state': 'mv reassigned, still enabled'})
+    # ... and the modifier itself re-stated by hand (either sign) on the same object
+    mod2 = ctx.real('modifier2', -10, 10)
+    ammo.temp_modifier = mod2
+    want4 = mv2 * (1 + mod2 * (Tq - t0) / 15)
+    ctx.check_eq('launch_velocity_after_in_place_changes', ammo.get_velocity_for_temp(p.Temperature.Celsius(Tq)) >> p.Velocity.MPS, want4,
+                 rel=1e-9, abs=1e-6, info={'state': 'modifier reassigned'})
     ammo.use_powder_sensitivity = False
     calc._init_trajectory(shot)
     ctx.check_eq('launch_velocity_after_in_place_changes', calc.muzzle_velocity, mv2 * 3.2808399, rel=1e-9, abs=1e-5, info={'state': 'mv reassigned, disabled'})
